@@ -105,7 +105,13 @@ def convert(t, var_names, assms, to_real, ctx):
                 body = z3.And(z3_v >= 0, body) if ctx is None else z3.And(z3_v >= 0, body, ctx)
             return z3.Exists(z3_v, body)
         elif t.is_number():
-            return t.dest_number()
+            # Keep the sort of the numeral: a Python number built into an
+            # expression without variables (abs 1 / 2) would otherwise be
+            # an integer for Z3, with integer division.
+            if t.get_type() == RealType:
+                return z3.RealVal(str(t.dest_number()), ctx)
+            else:
+                return z3.IntVal(t.dest_number(), ctx)
         elif t.is_implies():
             return z3.Implies(rec(t.arg1), rec(t.arg))
         elif t.is_equals():
